@@ -64,7 +64,7 @@ def tasks(tier, seed):
         for plus in (False, True):
             out.append({"key": f"iterate/n{n_}/limit{lim}/{'plus' if plus else 'plain'}/prefix=[]/above", "kind": "iterate", "n": n_, "limit": lim,
                         "plus": plus, "prefix": []})
-    # an iteration that lists only PART of the terminal nodes: the unlisted ones count as loss 0 - exactly as if they were listed with 0
+    # iterations that list only PART of the terminal nodes, run on a minimiser and on its saved-then-loaded twin
     for n_, lim, pf in ((3, 1, [[1, 2, 0]]), (3, 2, [[1, 0, 2], [0, 3, 1]]), (3, 2, []), (4, 1, [[1] * 10])):
         for plus in (False, True):
             out.append({"key": f"partial/n{n_}/limit{lim}/{'plus' if plus else 'plain'}/prefix#{len(pf)}", "kind": "partial", "n": n_, "limit": lim,
@@ -243,37 +243,44 @@ def _saveload(pk, params, inp):
 
 
 def _partial(pk, params, inp):
-    """Twin minimisers with the same history; one is fed a partial listing of the terminal nodes, the other the full listing with zeros
-    at the unlisted ones."""
+    """A minimiser and its saved-then-loaded twin continue with iterations that list only PART of the terminal nodes: whatever an
+    iteration leaves behind that is not in the save files (scratch tables, caches) must not matter."""
+    import shutil
+    import tempfile
+    from pathlib import Path
+
     import numpy as np
     n, limit = params["n"], params["limit"]
     R = pk.regret
+    if pk.symbolic:
+        store = _ArrayStore()
+        R.np.save, R.np.load = store.save, store.load
     bottom, viable = _bottom(pk, n, limit)
     nt = len(bottom)
 
     def conc(pf):
         return np.array([inp.const(x) if pk.symbolic else float(x) for x in pf], dtype=object if pk.symbolic else float)
-    twins = [R.GameRegretMinimizer(n, limit, plus=params["plus"]) for _ in range(2)]
-    for m in twins:
-        for pf in params["prefix"]:
+    root = tempfile.mkdtemp(prefix="c14p_")
+    try:
+        m = R.GameRegretMinimizer(n, limit, plus=params["plus"])
+        for pf in params["prefix"] or [[(i % 2) + 1 for i in range(nt)]]:
             m.regret_min_iteration(conc(pf), bottom)
-    # first a CONCRETE partial call listing the odd-ranked terminal nodes (whatever it leaves behind must not matter afterwards) ...
+        m.save(Path(root) / "rm")
+        twin = R.GameRegretMinimizer.load(Path(root) / "rm")
+    finally:
+        shutil.rmtree(root, ignore_errors=True)
+    # first a CONCRETE partial call listing the odd-ranked terminal nodes, then the call with FREE losses listing the even-ranked ones
+    # (last, so that every term stays linear in the free losses)
     other = [i for i in range(nt) if i % 2 == 1]
-    if other:
-        twins[0].regret_min_iteration(conc([(i % 3) + 1 for i in other]), [bottom[i] for i in other])
-        twins[1].regret_min_iteration(conc([((i % 3) + 1) if i % 2 == 1 else 0 for i in range(nt)]), bottom)
-    # ... then the call with FREE losses listing the even-ranked ones (last, so that every term stays linear in the free losses)
     listed = [i for i in range(nt) if i % 2 == 0]
     t_part = np.empty(len(listed), dtype=object if pk.symbolic else float)
-    t_full = np.empty(nt, dtype=object if pk.symbolic else float)
-    for i in range(nt):
-        t_full[i] = inp.const(0) if pk.symbolic else 0.0
     for j, i in enumerate(listed):
         t_part[j] = inp.real(f"t{i}")
-        t_full[i] = inp.real(f"t{i}")
-    twins[0].regret_min_iteration(t_part, [bottom[i] for i in listed])
-    twins[1].regret_min_iteration(t_full, bottom)
-    return {"partial": _snapshot(pk, twins[0], viable), "full": _snapshot(pk, twins[1], viable)}
+    for g in (m, twin):
+        if other:
+            g.regret_min_iteration(conc([(i % 3) + 1 for i in other]), [bottom[i] for i in other])
+        g.regret_min_iteration(t_part.copy(), [bottom[i] for i in listed])
+    return {"partial": _snapshot(pk, m, viable), "full": _snapshot(pk, twin, viable)}
 
 
 def _snap_equal(lg, a, b, tol=None):
@@ -291,7 +298,7 @@ def _snap_equal(lg, a, b, tol=None):
 def claims(params, inp, out, lg):
     from math import comb
     if params["kind"] == "partial":
-        return [("unlisted-terminal-nodes-count-as-zero-loss", _snap_equal(lg, out["partial"], out["full"]), "C14/partial-listing")]
+        return [("loaded-twin-continues-identically-under-partial-listings", _snap_equal(lg, out["partial"], out["full"]), "C14/partial-listing")]
     if params["kind"] == "saveload":
         return [("loaded-equals-saved", _snap_equal(lg, out["at_save"], out["at_load"]), "C14/saveload/loaded-differs"),
                 ("loaded-continues-identically", _snap_equal(lg, out["cont_orig"], out["cont_loaded"]), "C14/saveload/continues-differently"),
